@@ -347,6 +347,14 @@ func TestC06_BadShare(t *testing.T) {
 		if sig, err := ins.ThresholdSignature(); err != nil || !bytes.Equal(sig, s.expected) {
 			g.Fatalf("reconstruction after a rejected %s share = (%x, %v), expected %x", kind, []byte(sig), err, s.expected)
 		}
+		// the signer is in the pool now: a second share for it is a duplicate whatever its contents ("duplicatedSignerError:
+		// if signer was already added" has no condition on the share), through either entry point
+		if v, enough, err := ins.VerifyAndAdd(j, bad); v || enough || !crypto.IsDuplicatedSignerError(err) {
+			g.Fatalf("VerifyAndAdd(%d, %s share) for a signer already in the pool = (%v, %v, %v), the duplicated-signer error is documented", j, kind, v, enough, err)
+		}
+		if enough, err := ins.TrustedAdd(j, bad); enough || !crypto.IsDuplicatedSignerError(err) {
+			g.Fatalf("TrustedAdd(%d, %s share) for a signer already in the pool = (%v, %v), the duplicated-signer error is documented", j, kind, enough, err)
+		}
 		// TrustedAdd of the bad share: ThresholdSignature must return an error, never bytes.
 		// The implementation walks its share map in Go's randomized iteration order, so the
 		// sequence is repeated on fresh objects to see more than one order.
